@@ -829,3 +829,79 @@ func sortInterfaceStub(fr *frame, args []value) value {
 }
 
 var _ = sort.Strings
+
+func (i *interpreter) unwrapErr(fr *frame, e iface) (iface, bool) {
+	if e.t == nil {
+		return iface{}, false
+	}
+	r, ok := i.callMethod(fr, e, "Unwrap")
+	if !ok {
+		return iface{}, false
+	}
+	if u, ok := r.(iface); ok && u.t != nil {
+		return u, true
+	}
+	return iface{}, false
+}
+
+func init() {
+	externals["errors.As"] = func(fr *frame, args []value) value {
+		i := fr.i
+		err := args[0].(iface)
+		target := args[1].(iface)
+		if target.t == nil {
+			panic(targetPanic{iface{types.Typ[types.String], "errors: target cannot be nil"}})
+		}
+		pt, ok := target.t.Underlying().(*types.Pointer)
+		if !ok || target.v.(*value) == nil {
+			panic(targetPanic{iface{types.Typ[types.String], "errors: target must be a non-nil pointer"}})
+		}
+		T := pt.Elem()
+		cell := target.v.(*value)
+		for n := 0; err.t != nil && n < 100; n++ {
+			if it, isI := T.Underlying().(*types.Interface); isI {
+				if types.Implements(err.t, it) {
+					*cell = err
+					return true
+				}
+			} else if types.Identical(err.t, T) {
+				store(T, cell, err.v)
+				return true
+			}
+			next, ok := i.unwrapErr(fr, err)
+			if !ok {
+				break
+			}
+			err = next
+		}
+		return false
+	}
+	externals["errors.Is"] = func(fr *frame, args []value) value {
+		i := fr.i
+		err := args[0].(iface)
+		target := args[1].(iface)
+		if err.t == nil || target.t == nil {
+			return err.t == nil && target.t == nil
+		}
+		for n := 0; err.t != nil && n < 100; n++ {
+			if types.Comparable(target.t) && sameType(err.t, target.t) {
+				if i.truth(i.equals(err.t, err.v, target.v)) {
+					return true
+				}
+			}
+			next, ok := i.unwrapErr(fr, err)
+			if !ok {
+				break
+			}
+			err = next
+		}
+		return false
+	}
+	externals["errors.Unwrap"] = func(fr *frame, args []value) value {
+		u, ok := fr.i.unwrapErr(fr, args[0].(iface))
+		if !ok {
+			return iface{}
+		}
+		return u
+	}
+}
